@@ -44,13 +44,13 @@ def declare(spec):
         props=["C04", "C05"])
 
     add(spec, "Node.choose_next_customer",
-        requires=["len(self.individuals) == self.simulation.number_of_priority_classes",
-                  "forall_in(self.individuals, lambda q: forall_in(q, lambda x: ref_eq(loc(x), self)))"],
+        requires=["len(self.individuals) == self.simulation.number_of_priority_classes", "pop_fwd(self)"],
         returns="opt:" + IND, allocates=True, modifies=[],
         ensures=[
             ("C05:none-iff-nobody-waits",
              "(result is None) == forall_in(self.individuals, lambda q: forall_in(q, lambda i: i.server))"),
-            ("chosen-customer-is-at-this-node-and-waiting", "implies(result is not None, ref_eq(loc(result), self) and not result.server and was_alive(result))"),
+            ("chosen-customer-is-at-this-node-and-waiting",
+             "implies(result is not None, ref_eq(loc(result), self) and not result.server and was_alive(result))"),
             ("C08:highest-priority-class-with-a-waiting-customer",
              "implies(result is not None, exists_int(lambda p: 0 <= p and p < len(self.individuals) "
              "and result in self.individuals[p] and not result.server "
@@ -88,18 +88,11 @@ def declare(spec):
     M["shape"] = ("lambda n: len(n.individuals) == n.simulation.number_of_priority_classes "
                   "and n.simulation.number_of_priority_classes >= 1")
     M["net_ok"] = (
-        "lambda n: 1 <= n.id_number and n.id_number <= n.simulation.network.number_of_nodes "
-        "and len(n.simulation.nodes) == n.simulation.network.number_of_nodes + 2 "
-        "and n.id_number in n.simulation.service_times "
-        "and len(n.simulation.network.customer_class_names) > 0 "
-        "and forall_in(n.simulation.network.customer_class_names, lambda c: "
-        "  c in n.simulation.network.customer_classes "
-        "  and c in n.simulation.network.priority_class_mapping "
-        "  and 0 <= n.simulation.network.priority_class_mapping[c] "
-        "  and n.simulation.network.priority_class_mapping[c] < n.simulation.number_of_priority_classes "
-        "  and c in n.simulation.routers "
-        "  and c in n.simulation.service_times[n.id_number] and n.simulation.service_times[n.id_number][c] is not None "
-        "  and len(n.simulation.network.customer_classes[c].reneging_time_distributions) == n.simulation.network.number_of_nodes)")
+        "lambda n: 1 <= n.id_number and n.id_number <= nnodes() and n.simulation.network.number_of_nodes == nnodes() "
+        "and len(n.simulation.nodes) == nnodes() + 2 and len(n.simulation.network.customer_class_names) > 0 "
+        "and forall_member(n.simulation.network.customer_class_names, lambda c: "
+        "  0 <= n.simulation.network.priority_class_mapping[c] "
+        "  and n.simulation.network.priority_class_mapping[c] < n.simulation.number_of_priority_classes)")
     # ordinary (float) arithmetic: the clock is an int / float; ExactNode runs are verified separately (C20)
     M["float_clock"] = "lambda n: is_fin(n.simulation.current_time) or is_pinf(n.simulation.current_time)"
     M["cls_ok"] = "lambda n, i: i.customer_class in n.simulation.network.customer_class_names"
@@ -171,13 +164,16 @@ def declare(spec):
     M["restartable"] = ("lambda i: i.service_time is False or "
                         "((i.service_time == 'resample' or i.service_time == 'restart' or i.service_time == 'resume') and has(i, 'time_left') "
                         " and has(i, 'original_service_time') and is_fin(i.time_left) and i.time_left >= 0 and is_time(i.original_service_time) and is_fin(i.original_service_time) and i.original_service_time >= 0)")
-    M["waiting_ok"] = ("lambda n, i: cls_ok(n, i) and restartable(i) and "
-                       "implies(n.dynamic_classes, has(i, 'class_change_date'))")
+    M["waiting_ok"] = ("lambda n, i: cls_ok(n, i) and restartable(i) and implies(n.dynamic_classes, has(i, 'class_change_date'))")
     # abstract view of a node's population through the ghost location map (I-POP, forward direction):
     # whoever is filed in one of the node's lines is located at the node
     M["pop_fwd"] = "lambda n: forall_in(n.individuals, lambda q: forall_in(q, lambda x: ref_eq(loc(x), n)))"
     M["all_waiting_ok"] = ("lambda n: forall_obj('Individual', lambda i: implies(ref_eq(loc(i), n) and not i.server, waiting_ok(n, i)), "
                            "trigger=lambda i: loc(i))")
+    # position-based form used where a customer is picked out of the lines: whoever is filed in a line is located
+    # here and, if waiting, may be (re)started
+    M["line_ok"] = ("lambda n: forall_in(n.individuals, lambda q: forall_in(q, lambda x: ref_eq(loc(x), n) and cls_ok(n, x) "
+                    "and implies(not x.server, restartable(x)) and implies(n.dynamic_classes, has(x, 'class_change_date'))))")
     M["dyn_ok"] = "lambda n: implies(n.dynamic_classes, has(n, 'next_class_change_ind'))"
 
     AT_SELF = "@lambda o: ref_eq(loc(o), self)"
@@ -371,10 +367,10 @@ def declare(spec):
     M["wc_except"] = ("lambda n, x: isinf(n.c) or forall_in(n.servers, lambda s: s.busy) or "
                       "forall_obj('Individual', lambda i: implies(ref_eq(loc(i), n) and not ref_eq(i, x), i.server), trigger=lambda i: loc(i))")
 
-    BSIPA_REQ = ["shape(self)", "net_ok(self)", "float_clock(self)", "has_servers(self)", "dyn_ok(self)", "pop_fwd(self)",
+    BSIPA_REQ = ["shape(self)", "net_ok(self)", "float_clock(self)", "has_servers(self)", "dyn_ok(self)",
                  "cls_ok(self, next_individual)", "ref_eq(loc(next_individual), self)", "not next_individual.server",
                  "prio_ok(self, next_individual)", "next_individual in self.individuals[next_individual.priority_class]",
-                 "all_waiting_ok(self)",
+                 "pop_fwd(self)",
                  "implies(self.dynamic_classes, forall_in(self.individuals, lambda q: forall_in(q, lambda i: "
                  "ref_eq(i, next_individual) or has(i, 'class_change_date'))))"]
     add(spec, "Node.begin_service_if_possible_accept",
